@@ -28,7 +28,7 @@ def hms(s):
 
 def scenarios(rng, quick):
     sc = []
-    n = 150 if quick else 3000
+    n = 150 if quick else 40000
     hi = caldrv.TAIL_FIRST - 3000
     # dates, day / week increments, skips, compute-from-last
     for i in range(n):
@@ -160,7 +160,7 @@ def main(tier):
     try:
         quick = tier == "quick"
         rng = core.rng("c15")
-        r = core.tlc_must_pass("Seq", "Seq.cfg", keep_prints=False)
+        r = core.tlc_must_pass("Seq", "Seq.cfg" if quick else "SeqThorough.cfg", keep_prints=False, timeout=3000, heap="16g")
         rep.add_tlc("Seq (Monotone, NoSkipped, Within, StartsAtFirst, EndsAtLast, TodBound; liveness Terminates)", r)
         dseq = b.tool("dseq")
         scs = scenarios(rng, quick)
